@@ -26,13 +26,14 @@ Record dirst := { gen : nat;       (* ghost: generation, = number of earlier suc
 
 Inductive op :=
 | OMkdir                            (* l.fs.vfs.Mkdir(lockPath)            lockfile.go:137 *)
-| ORemove (p : path)                (* fs.vfs.Remove                       files.go:751 *)
+| ORemove (p : path)                (* fs.vfs.Remove                       files.go:778 *)
 | OStat (p : path)                  (* fs.vfs.Stat                         files.go:475 *)
-| OOpen (p : path)                  (* fs.vfs.Open                         files.go:657, 869, 1250 *)
+| OLstat (p : path)                 (* fs.vfs.LstatIfPossible              files.go:255 (VFS.Lstat) *)
+| OOpen (p : path)                  (* fs.vfs.Open                         files.go:661, 897, 1278 (GenericOpen :281) *)
 | OReaddir (h : nat) (one : bool)   (* f.Readdirnames(1) / (-1) on a handle of generation h *)
 | OReaddirF (one : bool)            (* f.Readdirnames on a handle of the heartbeat FILE (isDirEmpty reached through a race) *)
 | OOpenHb                           (* OpenFile(hb, O_WRONLY|O_CREATE|O_TRUNC) + Write + Close   files.go:437 *)
-| OChtimes (p : path).              (* fs.vfs.Chtimes                      files.go:1024 *)
+| OChtimes (p : path).              (* fs.vfs.Chtimes                      files.go:1052 *)
 
 Inductive res :=
 | ROk | RExist | RNotExist | RNotEmpty | ROther
@@ -55,6 +56,10 @@ Definition sem (c ng : nat) (stale : bool) (fs : fsstate) (o : op) : fsstate * r
   | OStat PDir, Some _ => (fs, RIsDir stale)
   | OStat PHb, Some d => if hbf d then (fs, RIsFile stale) else (fs, RNotExist)
   | OStat PHb, None => (fs, RNotExist)
+  | OLstat PDir, None => (fs, RNotExist)
+  | OLstat PDir, Some _ => (fs, RIsDir false)
+  | OLstat PHb, Some d => if hbf d then (fs, RIsFile false) else (fs, RNotExist)
+  | OLstat PHb, None => (fs, RNotExist)
   | OOpen PDir, None => (fs, RNotExist)
   | OOpen PDir, Some d => (fs, RHandle (gen d))
   | OOpen PHb, Some d => if hbf d then (fs, RFileHandle) else (fs, RNotExist)
@@ -86,7 +91,7 @@ Inductive result (A : Type) := Ok (a : A) | Err.      (* error kinds do not infl
 Arguments Ok {A} a.
 Arguments Err {A}.
 
-(* VFS.Exists + checkDirExists, files.go:637-672 *)
+(* VFS.Exists + checkDirExists, files.go:642-677 *)
 Definition exists_ (p : path) : prog bool :=
   Do (OStat p) (fun r => match r with
     | RIsDir _ => Do (OOpen p) (fun r => match r with
@@ -96,19 +101,19 @@ Definition exists_ (p : path) : prog bool :=
     | RIsFile _ => Ret true
     | _ => Ret false end).
 
-(* VFS.IsDir, files.go:808-822 *)
+(* VFS.IsDir, files.go:836-850 *)
 Definition is_dir (p : path) : prog (result bool) :=
   e <- exists_ p ;;
   if negb e then Ret Err else
   Do (OStat p) (fun r => match r with RIsDir _ => Ret (Ok true) | RIsFile _ => Ret (Ok false) | _ => Ret Err end).
 
-(* VFS.IsFile, files.go:758-772 *)
+(* VFS.IsFile, files.go:786-800 *)
 Definition is_file (p : path) : prog (result bool) :=
   e <- exists_ p ;;
   if negb e then Ret (Ok false) else
   Do (OStat p) (fun r => match r with RIsFile _ => Ret (Ok true) | RIsDir _ => Ret (Ok false) | _ => Ret Err end).
 
-(* VFS.IsEmpty / isFileEmpty / isDirEmpty, files.go:836-888.  The heartbeat file is never observed with size 0
+(* VFS.IsEmpty / isFileEmpty / isDirEmpty, files.go:864-916.  The heartbeat file is never observed with size 0
    (create+write+close is one step of the heartbeat writer). *)
 Definition is_empty (p : path) : prog (result bool) :=
   e <- exists_ p ;;
@@ -127,7 +132,7 @@ Definition is_empty (p : path) : prog (result bool) :=
       | _ => Ret Err end)
   end.
 
-(* LsWithExclusionPatterns (no patterns), files.go:1245-1262: number of names (0 or 1) *)
+(* LsWithExclusionPatterns (no patterns), files.go:1273-1290: number of names (0 or 1) *)
 Definition ls_dir : prog (result nat) :=
   d <- is_dir PDir ;;
   match d with
@@ -138,9 +143,11 @@ Definition ls_dir : prog (result nat) :=
   | _ => Ret Err
   end.
 
-(* RemoveWithContextAndExclusionPatterns (no patterns), files.go:711-753; [clean] = the call of
-   CleanDirWithContextAndExclusionPatterns made when the path is a non-empty directory *)
+(* RemoveWithContextAndExclusionPatterns / removeWithExclusionPatterns (no patterns), files.go:716-780 (line numbers as of the tree with the C04/C08 repairs of Rm); [clean] = the
+   call of CleanDirWithContextAndExclusionPatterns made when the path is a non-empty directory.  The first operation
+   is the Lstat of the symbolic-link test (never a link here). *)
 Definition rm_with (clean : prog (result unit)) (p : path) : prog (result unit) :=
+  Do (OLstat p) (fun _ =>
   e <- exists_ p ;;
   if negb e then Ret (Ok tt) else
   d <- is_dir p ;;
@@ -153,11 +160,11 @@ Definition rm_with (clean : prog (result unit)) (p : path) : prog (result unit) 
   match em2 with Err => Ret Err | Ok isempty2 =>
   if isdir && negb isempty2 then Ret (Ok tt)         (* "some files may have been ignored": returns nil, nothing removed *)
   else Do (ORemove p) (fun r => match r with ROk => Ret (Ok tt) | _ => Ret Err end)
-  end end end end.
+  end end end end).
 
 Definition rm_hb : prog (result unit) := rm_with (Ret (Ok tt)) PHb.
 
-(* CleanDirWithContextAndExclusionPatterns, files.go:590-618 *)
+(* CleanDirWithContextAndExclusionPatterns + removeFileWithContext, files.go:590-636 *)
 Definition clean_dir : prog (result unit) :=
   e <- exists_ PDir ;;
   if negb e then Ret (Ok tt) else
@@ -282,13 +289,13 @@ Definition live_owner (f : fsstate) (l : list cst) : bool :=
   end.
 
 (* ---------- observations ---------- *)
-Inductive opc := CMkdir | CRemove (p : path) | CStat (p : path) | COpen (p : path) | CReaddir (one : bool) | CReaddirF (one : bool) | CUnknown
+Inductive opc := CMkdir | CRemove (p : path) | CStat (p : path) | CLstat (p : path) | COpen (p : path) | CReaddir (one : bool) | CReaddirF (one : bool) | CUnknown
                | COpenFile | CChtimes (p : path).
 Inductive resc := QOk | QExist | QNotExist | QNotEmpty | QOther | QIsDir | QIsFile | QNames (n : nat) (eof : bool).
 
 Definition opc_of (o : op) : opc :=
   match o with
-  | OMkdir => CMkdir | ORemove p => CRemove p | OStat p => CStat p | OOpen p => COpen p
+  | OMkdir => CMkdir | ORemove p => CRemove p | OStat p => CStat p | OLstat p => CLstat p | OOpen p => COpen p
   | OReaddir _ one => CReaddir one | OReaddirF one => CReaddirF one | OOpenHb => COpenFile | OChtimes p => CChtimes p end.
 Definition resc_of (r : res) : resc :=
   match r with
@@ -421,7 +428,7 @@ Scheme Equality for ares.
 Definition opc_eqb (a b : opc) : bool :=
   match a, b with
   | CMkdir, CMkdir | COpenFile, COpenFile => true
-  | CRemove p, CRemove q | CStat p, CStat q | COpen p, COpen q | CChtimes p, CChtimes q => path_beq p q
+  | CRemove p, CRemove q | CStat p, CStat q | CLstat p, CLstat q | COpen p, COpen q | CChtimes p, CChtimes q => path_beq p q
   | CReaddir x, CReaddir y | CReaddirF x, CReaddirF y => Bool.eqb x y
   | _, _ => false end.
 Definition resc_eqb (a b : resc) : bool :=
@@ -452,14 +459,17 @@ Record case := {
   c_items : list item;
   c_obs : list (option obs);
   c_holders : nat;
-  c_bad : bool }.
+  c_bad : bool;
+  c_zombies : nat;
+  c_atomic : bool }.     (* the harness generated the schedule under the atomic-release restriction *)     (* heartbeat writers seen running after their lock object's cancel store was cancelled: the model has none *)
 
 Definition ob (o : opc) (r : resc) (ret : option ares) : option obs := Some {| o_op := o; o_res := r; o_ret := ret |}.
 
-Definition check_case (k : case) : bool :=
+Definition check_case0 (k : case) : bool :=
   match run (init (c_ovr k)) (c_items k) with
   | None => false
   | Some (s, os) => obs_list_eqb os (c_obs k) && Nat.eqb (live_holders s) (c_holders k) && Bool.eqb (bad s) (c_bad k)
+                    && Nat.eqb (c_zombies k) 0
   end.
 
 (* ---------- compact encoding used by the harness's case files ---------- *)
@@ -474,7 +484,7 @@ Definition opc_dec (n : nat) : opc :=
   match n with
   | 0 => CMkdir | 1 => CRemove PDir | 2 => CRemove PHb | 3 => CStat PDir | 4 => CStat PHb | 5 => COpen PDir
   | 6 => CReaddir true | 7 => CReaddir false | 8 => COpenFile | 9 => CChtimes PDir | 10 => CChtimes PHb
-  | 11 => COpen PHb | 12 => CReaddirF true | 13 => CReaddirF false
+  | 11 => COpen PHb | 12 => CReaddirF true | 13 => CReaddirF false | 14 => CLstat PDir | 15 => CLstat PHb
   | _ => CUnknown end.                   (* anything else: an operation the model never issues *)
 Definition resc_dec (n : nat) : resc :=
   match n with
@@ -496,5 +506,68 @@ Definition obs_of (e : entry) : option obs :=
   | _ => None
   end.
 
-Definition mkCase (ovr : list bool) (es : list entry) (holders : nat) (b : bool) : case :=
-  {| c_ovr := ovr; c_items := map item_of es; c_obs := map obs_of es; c_holders := holders; c_bad := b |}.
+Definition mkCase (ovr : list bool) (es : list entry) (holders : nat) (b : bool) (z : nat) (atomic : bool) : case :=
+  {| c_ovr := ovr; c_items := map item_of es; c_obs := map obs_of es; c_holders := holders; c_bad := b; c_zombies := z;
+     c_atomic := atomic |}.
+
+(* ---------- the staleness oracle's proviso, as a check on a schedule ----------
+   "as long as the holder's heartbeat keeps running": a stale verdict is never given while the directory's creator is
+   engaged with it (has acquired or is acquiring, has not begun to release) and alive. *)
+Fixpoint respects_oracle (s : state) (its : list item) : bool :=
+  match its with
+  | [] => true
+  | it :: r =>
+      (match it with IStep _ None true => negb (live_owner (fs s) (cs s)) | _ => true end) &&
+      match exec s it with Some (s', _) => respects_oracle s' r | None => false end
+  end.
+
+Definition final (ovrs : list bool) (its : list item) : option state :=
+  match run (init ovrs) its with Some (s, _) => Some s | None => None end.
+
+(* ---------- the restricted relation of lock_mutex_under_atomic_release ----------
+   Release window of a call: open from the start of an Unlock call, or from the moment the call reads a time stamp
+   judged stale, until the call's next operation is its own Mkdir (its release is over) or it returns.
+   Atomicity hypothesis (A1+A2 of the design, as one condition): while a contender's release window is open, no OTHER
+   contender's Mkdir SUCCEEDS (a Mkdir that fails because the directory exists — a poller — is allowed).  Oracle hypothesis: a stale verdict is given only where the oracle [judge] says so. *)
+Definition at_mkdir (x : cst) : bool := match cur x with Some (_, Do OMkdir _) => true | _ => false end.
+Definition window_open (x : cst) : bool :=
+  match cur x with Some _ => win (gh x) && negb (at_mkdir x) | None => false end.
+
+Fixpoint others_closed (l : list cst) (c : nat) : bool :=
+  match l with
+  | [] => true
+  | x :: t => match c with
+              | 0 => forallb (fun y => negb (window_open y)) t
+              | S c' => negb (window_open x) && others_closed t c'
+              end
+  end.
+
+Definition allowedb (judge : state -> bool) (s : state) (it : item) : bool :=
+  match it with
+  | IStep c None stale =>
+      implb stale (judge s) &&
+      match nth_error (cs s) c with
+      | Some x => implb (at_mkdir x && match fs s with None => true | Some _ => false end) (others_closed (cs s) c)
+      | None => true
+      end
+  | _ => true
+  end.
+
+Fixpoint rrun (judge : state -> bool) (s : state) (its : list item) : option state :=
+  match its with
+  | [] => Some s
+  | it :: r =>
+      if allowedb judge s it then
+        match exec s it with Some (s', _) => rrun judge s' r | None => None end
+      else None
+  end.
+
+(* the most permissive sound oracle: everything that is not a live holder's directory may be judged stale *)
+Definition judge_max (s : state) : bool := negb (live_owner (fs s) (cs s)).
+
+(* The correspondence check: the model reproduces every observation; and a schedule the harness generated under the
+   atomic-release restriction is a run of the restricted relation (so lock_mutex_under_atomic_release applies to it:
+   no destroyed lock, at most one holder — which the observation comparison then transfers to the implementation). *)
+Definition check_case (k : case) : bool :=
+  check_case0 k &&
+  implb (c_atomic k) (match rrun judge_max (init (c_ovr k)) (c_items k) with Some s => negb (bad s) | None => false end).
